@@ -373,8 +373,15 @@ def rule_r3(chk, prog):
         chk.violation('C18.R3', f_.where, f_.construct, f_.msg, f_.loc)
     # TaskGenerator order: subsets in filtered (dfs) order, index ascending
     tg = dm.func('TaskGenerator.__init__')
-    ok = 'list(nodes.filter_nodes(exprs, filter_func, max_depth))' in unparse(
-        tg)
+    ok = False
+    for st in walk_no_nested(tg):
+        if isinstance(st, ast.Assign) and isinstance(
+                st.value, ast.Call) and call_name(st.value) == 'list' and \
+                st.value.args and isinstance(
+                    st.value.args[0], ast.Call) and (call_name(
+                        st.value.args[0]) or '').endswith('filter_nodes') \
+                and unparse(st.value.args[0].args[0]) == params_of(tg)[1]:
+            ok = True
     chk.check('C18.R3', 'strategy_ddmin.TaskGenerator.__init__',
               'subsets in DFS order', ok, 'the filtered node list is not '
               'the DFS order of the input', loc=dm.loc(tg), nontrivial=True)
